@@ -13,6 +13,7 @@ import (
 	"fmt"
 	"io/ioutil"
 	"os"
+	"reflect"
 	"runtime"
 	"runtime/debug"
 	"time"
@@ -203,6 +204,36 @@ func Depth() int {
 // cannot be followed to its end symbolically). Natively the goroutine stack limit is lowered so
 // that a runaway recursion ends in Go's fatal "stack overflow" within milliseconds.
 func StackLimit(n int) { debug.SetMaxStack(n * 4096) }
+
+// SliceLen / SwapElems: length of, and swap within, a slice held in an interface value. Under the
+// executor they are intrinsics; natively they use reflection.
+func SliceLen(x interface{}) int { return reflect.ValueOf(x).Len() }
+
+func SwapElems(x interface{}, i, j int) { reflect.Swapper(x)(i, j) }
+
+// ModelSortSliceStable is what the executor runs in place of sort.SliceStable and sort.Slice (which
+// are built on reflection): a stable insertion sort driven by the caller's less function. For
+// sort.Slice this is one of the permitted results (the library does not promise an order among
+// equal elements).
+func ModelSortSliceStable(x interface{}, less func(i, j int) bool) {
+	n := SliceLen(x)
+	for i := 1; i < n; i++ {
+		for j := i; j > 0 && less(j, j-1); j-- {
+			SwapElems(x, j, j-1)
+		}
+	}
+}
+
+// ModelSliceIsSorted is what the executor runs in place of sort.SliceIsSorted.
+func ModelSliceIsSorted(x interface{}, less func(i, j int) bool) bool {
+	n := SliceLen(x)
+	for i := n - 1; i > 0; i-- {
+		if less(i, i-1) {
+			return false
+		}
+	}
+	return true
+}
 
 // AdvanceClock lets n seconds of the executor's concrete clock pass; natively it sleeps n*10ms
 // (harnesses scale their time-outs accordingly, see Unit).
